@@ -294,6 +294,12 @@ def check(case):
             M.enable_sensitivities(True)
             out2, _ = M.simulate(theta.copy(), times.copy())
             case.close(out2, want, rtol=1e-6, atol=1e-8, what='amounts with sensitivities enabled (regimen kept)')
+            # enabling again while already enabled (as ReducedMechanisticModel.fix_parameters and
+            # enable_sensitivities(True, subset) do) builds a new simulator: the regimen must follow
+            M.enable_sensitivities(True, parameter_names=M.parameters()[:1])
+            out2b, _ = M.simulate(theta.copy(), times.copy())
+            case.close(out2b, want, rtol=1e-6, atol=1e-8,
+                       what='amounts after enabling sensitivities a second time (regimen kept)')
             M.enable_sensitivities(False)
             out3 = M.simulate(theta.copy(), times.copy())
             case.close(out3, want, rtol=1e-6, atol=1e-8, what='amounts after disabling sensitivities (regimen kept)')
